@@ -168,6 +168,8 @@ const (
 	c19EntA  = "https://sp-a.example.com/metadata"
 	c19EntB  = "https://sp-b.example.com/metadata"
 	c19EntZ  = "https://sp-z.example.com/metadata"
+	c19EntN  = "https://sp-n.example.com/metadata"
+	c19ArtN  = "https://sp-n.example.com/artifact" // N's only endpoint: HTTP-Artifact, nothing can be posted to it
 	c19AcsA  = "https://sp-a.example.com/acs"
 	c19AcsA2 = "https://sp-a.example.com/acs-moved"
 	c19AcsB  = "https://sp-b.example.com/acs"
@@ -180,6 +182,12 @@ func c19Metadata(which string) []byte {
 		acs = c19AcsA2
 	case "B":
 		ent, acs = c19EntB, c19AcsB
+	}
+	if which == "N" { // a registered SP without any HTTP-POST assertion consumer service (artifact only): legal metadata, nothing can be posted to it
+		ed := saml.EntityDescriptor{EntityID: c19EntN, SPSSODescriptors: []saml.SPSSODescriptor{{SSODescriptor: saml.SSODescriptor{RoleDescriptor: saml.RoleDescriptor{ProtocolSupportEnumeration: "urn:oasis:names:tc:SAML:2.0:protocol"}},
+			AssertionConsumerServices: []saml.IndexedEndpoint{{Binding: saml.HTTPArtifactBinding, Location: c19ArtN, Index: 1}}}}}
+		b, _ := xml.Marshal(ed)
+		return b
 	}
 	if which == "X" { // a third SP whose metadata carries validity attributes that lie in the past
 		ent, acs = "https://sp-x.example.com/metadata", "https://sp-x.example.com/acs"
@@ -242,6 +250,8 @@ func (m *c19Model) registry() map[string]string {
 			r[c19EntA] = c19AcsA2
 		case "B":
 			r[c19EntB] = c19AcsB
+		case "N":
+			r[c19EntN] = c19ArtN // registered, but there is no endpoint a response could be posted to
 		}
 	}
 	return r
@@ -394,7 +404,7 @@ func c19Actions() []c19Action {
 			}
 			return false, "", "", ""
 		}})
-	for _, sv := range []struct{ name, md string }{{"s1", "A"}, {"s1", "A2"}, {"s1", "B"}, {"s2", "B"}} {
+	for _, sv := range []struct{ name, md string }{{"s1", "A"}, {"s1", "A2"}, {"s1", "B"}, {"s2", "B"}, {"s2", "N"}} {
 		sv := sv
 		acts = append(acts, c19Action{name: fmt.Sprintf("PUT service %s=%s", sv.name, sv.md), req: func(*c19Model) c19Req {
 			return c19Req{method: "PUT", path: "/services/" + sv.name, body: string(c19Metadata(sv.md))}
@@ -415,7 +425,7 @@ func c19Actions() []c19Action {
 				return false, "", "", ""
 			}})
 	}
-	for _, sc := range []struct{ n, ent string }{{"A", c19EntA}, {"B", c19EntB}, {"Z", c19EntZ}} {
+	for _, sc := range []struct{ n, ent string }{{"A", c19EntA}, {"B", c19EntB}, {"Z", c19EntZ}, {"N", c19EntN}} {
 		sc := sc
 		acts = append(acts, c19Action{name: "PUT shortcut sc1->" + sc.n, req: func(*c19Model) c19Req {
 			b, _ := json.Marshal(map[string]interface{}{"service_provider": sc.ent, "relay_state": "rs-" + sc.n})
@@ -523,7 +533,7 @@ func c19Actions() []c19Action {
 				ent, has := m.shortcuts["sc1"]
 				acs, reg := m.registry()[ent]
 				ses, live := m.liveSession(cookieOf(m))
-				if has && reg && live && cookieOf(m) != "" {
+				if has && reg && acs != c19ArtN && live && cookieOf(m) != "" {
 					return true, ses.email, acs, ent
 				}
 				return false, "", "", ""
@@ -555,9 +565,29 @@ func c19Actions() []c19Action {
 			return c19Req{method: "GET", path: p, cookie: m.cookie}
 		}, apply: func(m *c19Model, rep *c19Reply) (bool, string, string, string) { return false, "", "", "" }})
 	}
+	if c19WithExtras {
+		// credentials around bcrypt's 72-byte input limit (only for the live credential sequences: each PUT costs a DefaultCost hash)
+		p72 := "p1" + strings.Repeat("x", 70)
+		p73, p73alt := p72+"Z", p72+"Q"
+		acts = append(acts, putUser("alice", p73, "alice@example.com", true), putUser("alice", p72, "alice@example.com", true))
+		for _, pw := range []string{p72, p73, p73alt, p72 + "ZZ"} {
+			pw := pw
+			acts = append(acts, c19Action{name: fmt.Sprintf("login alice/%d-byte-password-ending-%q", len(pw), pw[len(pw)-2:]), req: func(m *c19Model) c19Req {
+				return c19Req{method: "POST", path: "/login", body: url.Values{"user": {"alice"}, "password": {pw}}.Encode(), ctype: "application/x-www-form-urlencoded", cookie: m.cookie}
+			}, apply: func(m *c19Model, rep *c19Reply) (bool, string, string, string) {
+				if credsOK(m, "alice", pw) {
+					login(m, rep, "alice")
+				}
+				return false, "", "", ""
+			}})
+		}
+	}
 	acts = append(acts, c19Action{name: "tick past the session lifetime", req: nil, apply: nil})
 	return acts
 }
+
+// c19WithExtras makes c19Actions add the slow credential-boundary actions (used by the live credential sequences only).
+var c19WithExtras bool
 
 func c19Do(srv *samlidp.Server, rq c19Req, notch int, seed string) *c19Reply {
 	harness.SetNow(c19T[notch])
@@ -653,7 +683,7 @@ func c19Initials() []*c19State {
 
 func observeRegistry(srv *samlidp.Server) string {
 	var parts []string
-	for _, e := range []string{c19EntA, c19EntB, c19EntZ} {
+	for _, e := range []string{c19EntA, c19EntB, c19EntZ, c19EntN} {
 		md, err := srv.GetServiceProvider(nil, e)
 		if err != nil || md == nil {
 			parts = append(parts, "-")
@@ -777,7 +807,7 @@ func c19Step(s *c19State, a c19Action, faults bool, depth int) (*c19State, []str
 		viols = append(viols, fmt.Sprintf("restart-differential/registry|after the request the running server knows [%s] but a server re-created over the same store knows [%s]\n%s", live, fr, ctx))
 	}
 	var mreg []string
-	for _, e := range []string{c19EntA, c19EntB, c19EntZ} {
+	for _, e := range []string{c19EntA, c19EntB, c19EntZ, c19EntN} {
 		if acs, ok := ns.m.registry()[e]; ok {
 			mreg = append(mreg, e+"@"+acs)
 		} else {
@@ -1022,8 +1052,11 @@ func c19Live(c *core.Ctx, acts []c19Action) {
 // posted credentials (right, superseded, empty password), password change, profile change, deletion - with at most one (slow, bcrypt
 // DefaultCost) password change per sequence. What a restart would forget must not matter: after a password change only the current
 // password opens a session or obtains an assertion.
-func c19LiveCredentials(c *core.Ctx, acts []c19Action) {
+func c19LiveCredentials(c *core.Ctx, _ []c19Action) {
 	c.Group("live-credential-sequences")
+	c19WithExtras = true
+	acts := c19Actions()
+	c19WithExtras = false
 	var alpha []int
 	for i, a := range acts {
 		n := a.name
